@@ -29,6 +29,13 @@ def also_counts_for(f):
     # on Box operations decide C17 as much as C15
     if f.get("source") == "CollTrace" and p in ("C15", "C16") and (str(op).startswith("box_") or op in ("into_boxed_slice", "zbox_try_array")):
         out.add("C17")
+    # an arena-level failure while a collection drives the arena: the collection's storage overlaps, moves or
+    # is misaligned -- its contents / neighbours are not what std's would be
+    if f.get("source") in ("ArenaMonitor",) and p in ("C01", "C02", "C04", "C12"):
+        if f.get("driver") in ("coll_driver", "collx_driver"):
+            out.update({"C13", "C17"})
+        if f.get("driver") == "str_driver":
+            out.add("C14")
     if name == "LiveBlocksIntact":
         out.update({"C01", "C12"} if op in ALLOCATOR_API_OPS else {"C01"})
     return out
@@ -69,12 +76,22 @@ COLL_GENS = {
     "C17": ["single", "pairs", "random"],
 }
 
+# every collection / string run is also seen at arena level (API hooks) and validated by the arena specs
+ARENA_VIEW = ["ArenaMonitor", "ArenaTrace"]
+
+def client_corpus(tier, seed):
+    """collection programs as drivers of the arena: only their arena-level traces are validated here"""
+    jobs = tj("coll_driver", "growth", tier, "dbg", seed, 1, [], monitors_arena=ARENA_VIEW)
+    jobs += tj("coll_driver", "pairs", tier, "rel", seed, 1, [], monitors_arena=ARENA_VIEW)
+    jobs += tj("str_driver", "snogrow", tier, "dbg", seed, 1, [], monitors_arena=ARENA_VIEW)
+    return jobs
+
 def coll_corpus(tier, seed, gens, profiles=("dbg", "rel")):
     jobs = []
     for g in gens:
         for prof in profiles:
             n = {"quick": 2, "thorough": 6}[tier]
-            jobs += tj("coll_driver", g, tier, prof, seed, n, ["CollTrace"], max_events=25000)
+            jobs += tj("coll_driver", g, tier, prof, seed, n, ["CollTrace"], max_events=25000, monitors_arena=ARENA_VIEW)
     return jobs
 
 def str_corpus(tier, seed, gens, profiles=("dbg", "rel")):
@@ -84,7 +101,7 @@ def str_corpus(tier, seed, gens, profiles=("dbg", "rel")):
             n = {"quick": 2, "thorough": 6}[tier]
             if g == "sops":
                 n *= 3
-            jobs += tj("str_driver", g, tier, prof, seed, n, ["StrTrace"], max_events=25000)
+            jobs += tj("str_driver", g, tier, prof, seed, n, ["StrTrace"], max_events=25000, monitors_arena=ARENA_VIEW)
     return jobs
 
 ARENA_MC = {
@@ -151,9 +168,9 @@ def plan_for(pid, tier, seed):
         extra = []
         if pid in ("C13", "C15", "C17"):
             for prof in ("dbg", "rel"):
-                extra += tj("collx_driver", "zst", tier, prof, seed, 1, ["CollTrace"], max_events=25000)
+                extra += tj("collx_driver", "zst", tier, prof, seed, 1, ["CollTrace"], max_events=25000, monitors_arena=ARENA_VIEW)
                 if pid == "C13":
-                    extra += tj("collx_driver", "copyops", tier, prof, seed, 1, ["CollTrace"], max_events=25000)
+                    extra += tj("collx_driver", "copyops", tier, prof, seed, 1, ["CollTrace"], max_events=25000, monitors_arena=ARENA_VIEW)
         return dict(level="model_checking", mc=[], traces=coll_corpus(tier, seed, COLL_GENS[pid]) + extra, special=[],
                     assumptions=["TLC and the Json/IOUtils community modules",
                                  "the reference semantics Coll.tla (cross-validated: the same formulas accept std's own Vec/Box on the same programs)",
@@ -165,6 +182,10 @@ def plan_for(pid, tier, seed):
         if tier == "thorough" and pid in ("C01", "C04", "C12"):
             gens = gens + ["ArenaGen_quick"]
         traces = arena_corpus(tier, seed, ARENA_GENS[pid])
+        # the repository's own test suite as a driver: every arena operation its tests perform, via the API hooks
+        traces = traces + tj("suite", "repo-tests", tier, "dbg", 0, 4, ["ArenaMonitor", "ArenaTrace"], cap=3000 if tier == "quick" else 30000)
+        # ... and the collections as clients of the arena
+        traces = traces + client_corpus(tier, seed)
         if pid == "C18":
             # the collections' amortised growth on top of the arena's
             traces = traces + coll_corpus(tier, seed, ["growth"])
